@@ -15,12 +15,14 @@ COMMENTS = [
     "/* c */", "/*c*/", "/** doc */", "/* a\n * b\n */", "/* a\n   b\n   c */", "/*\n\tx\ty\n*/", "// line", "//x", "// tab\there",
     "/* café 中 */", "// très", "/* a \\ b */", "/* ??/ */", "/* \"q\" 'r' */", "// \"unbalanced", "/* // inner */",
     "// cont \\\n   more", "/* trailing   \n   blanks   \n */", "/*!< member */", "///< doc", "/* * * */", "/*****/", "//", "/**/",
+    "// path C:\\tmp\\ ", "// art /\\  \t",
 ]
 LITERALS = [
-    '"s"', '"a b"', '"tab\there"', '"q\\"q"', '"back\\\\"', "'c'", "'\\''", "'\\\\'", '"/* no */"', '"// no"', 'L"w"', 'u8"u"',
+    '"s"', '"a b"', '"tab\there"', '"sp \t tab  \t"', '"q\\"q"', '"back\\\\"', "'c'", "'\\''", "'\\\\'", '"/* no */"', '"// no"', 'L"w"', 'u8"u"',
     '"café"', '"a  b   c"', '"%d\\n"', '""', '"??/"', '"multi\\\nline"',
 ]
-CPP_LITERALS = ['R"(raw "x" \\ )"', 'R"d(a)b)d"', '"x"_ud', "u'c'", '1\'000']
+CPP_LITERALS = ['R"(raw "x" \\ )"', 'R"d(a)b)d"', '"x"_ud', "u'c'", '1\'000', 'LR"(wide \\ raw)"', 'u8R"(u8 raw)"', 'uR"x(y)x"', 'UR"(z "q")"',
+                'R"(first line\n\tsecond \t line\n  third)"', 'LR"d(multi\n \tline)d"']
 TEMPLATES = {
     "C": ("@C@\n#include <stdio.h>\n@C@\n#define M(x) ((x) + 1) @C@\nstatic const char *s = @S@; @C@\nint f(int a, @C@ int b) @C@\n{ @C@\n"
           "    if (a @C@ > b) @C@\n        return a; @C@\n    else @C@ { @C@\n        puts(@S@); @C@\n    }\n    @C@\n"
@@ -109,7 +111,8 @@ def run(ctx):
         lang = langs[k % len(langs)]
         src = os.path.join(gdir, "g%05d%s" % (k, EXT[lang]))
         obs.write(src, gen_program(ctx.rng, lang).encode("utf-8"))
-        cfgt = cfggen.random_ws_config(ctx.rng, unc) if k % 4 else ""
+        # the tab policy is rotated explicitly: literals must be untouched under every one of them
+        cfgt = ("indent_with_tabs=%d\n" % (k % 3)) + (cfggen.random_ws_config(ctx.rng, unc) if k % 4 else "")
         jobs.append(("gen|%d|%s" % (k, lang), src, None, cfgt, lang))
     jobs += hazard.jobs(unc, ctx.rng, quick, ctx.work.sub("dense"))
     res = c02.observe_jobs(ctx, jobs)
